@@ -1,6 +1,6 @@
 (* Lemmas about Model/Vti.v: classification, component counts, padding, block vectors, decode = input, names. *)
 From Coq Require Import ZArith List Lia Bool.
-From Pymoto Require Import Base.Cmp Base.Bytes Model.Grid Model.B64 Model.Vti Proofs.GridP Proofs.BytesP Proofs.B64P.
+From Pymoto Require Import Base.Cmp Base.Bytes Model.Grid Model.B64 Model.Vti Proofs.GridP Proofs.BytesP Proofs.B64P Proofs.FsP.
 Import ListNotations.
 Open Scope Z_scope.
 
@@ -549,3 +549,148 @@ Example block_point_arrays_witness :   (* the former failing input: hypotheses h
   let g := {| nelx := 2; nely := 2; nelz := 0 |} in
   wf g /\ 2 mod nel g <> 0 /\ 2 mod nnodes g <> 0 /\ (2 * nnodes g) mod nel g <> 0 /\ (2 * (2 * nnodes g)) mod nel g = 0.
 Proof. unfold wf. cbn. repeat split; try lia; discriminate. Qed.
+
+(* ---- WriteToVTI on a file system with ANY previous content ---- *)
+(* the module after k more responses *)
+Definition vm_at (m : vmod) (k : Z) : vmod :=
+  mkVM (vm_grid m) (vm_saveto m) (vm_overwrite m) (vm_origin_s m) (vm_spacing_s m) (vm_iter m + k).
+
+Lemma vm_at_0 m : vm_at m 0 = m.
+Proof. destruct m as [g s o os ss i]. unfold vm_at. cbn [vm_grid vm_saveto vm_overwrite vm_origin_s vm_spacing_s vm_iter]. f_equal. lia. Qed.
+Lemma vm_at_next m k : vm_at (vm_next m) k = vm_at m (1 + k).
+Proof. unfold vm_at, vm_next. cbn [vm_grid vm_saveto vm_overwrite vm_origin_s vm_spacing_s vm_iter]. f_equal. lia. Qed.
+
+(* the name a response writes to is fixed by saveto, the mode and the iteration number *)
+Lemma vm_response_name m sigs name bytes : vm_response m sigs = Ok (Some (name, bytes)) ->
+  name = vti_filename (iter_filename (vm_saveto m) (vm_overwrite m) (vm_iter m)).
+Proof.
+  unfold vm_response, wvti_response. destruct (vti_file _ _ _ _) as [[b|]|e]; intros E; try discriminate.
+  now inversion E.
+Qed.
+
+(* one response: the file named by the response holds exactly the bytes of the model's file -- nothing of what a file
+   of that name held before survives --, every other file is untouched *)
+Theorem wvti_step_file fs m sigs fs' m' : wvti_step fs m sigs = Ok (fs', m') ->
+  m' = vm_next m /\
+  match vm_response m sigs with
+  | Ok (Some (name, bytes)) =>
+    fs_read fs' name = Some bytes /\ forall other, other <> name -> fs_read fs' other = fs_read fs other
+  | _ => fs' = fs
+  end.
+Proof.
+  unfold wvti_step. destruct (vm_response m sigs) as [[[name bytes]|]|e]; intros E; try discriminate;
+    injection E as <- <-; (split; [reflexivity|]).
+  - split; [apply fs_open_w_read|intros other Hne; now apply fs_open_w_other].
+  - reflexivity.
+Qed.
+
+Lemma wvti_fs_run_module : forall calls fs m fs' m', wvti_fs_run fs m calls = Ok (fs', m') ->
+  m' = vm_at m (Z.of_nat (length calls)).
+Proof.
+  induction calls as [|c rest IH]; intros fs m fs' m' H; cbn [wvti_fs_run] in H.
+  - injection H as _ <-. now rewrite vm_at_0.
+  - destruct (wvti_step fs m c) as [[fs1 m1]|e] eqn:Hs; [|discriminate].
+    destruct (wvti_step_file _ _ _ _ _ Hs) as (-> & _). rewrite (IH _ _ _ _ H), vm_at_next. f_equal.
+    cbn [length]. lia.
+Qed.
+
+Lemma wvti_fs_run_app : forall a b fs m,
+  wvti_fs_run fs m (a ++ b) =
+  match wvti_fs_run fs m a with Err e => Err e | Ok (fs1, m1) => wvti_fs_run fs1 m1 b end.
+Proof.
+  induction a as [|c a IH]; intros b fs m; cbn [app wvti_fs_run]; [reflexivity|].
+  destruct (wvti_step fs m c) as [[fs1 m1]|e]; [apply IH|reflexivity].
+Qed.
+
+(* numbered mode, ANY file system before, a history of n calls starting at any iteration number: the file written by
+   call k holds exactly the bytes of the model's file of call k (later calls write elsewhere, earlier content of that
+   name is gone), and a file whose name is not written by any call is untouched *)
+Theorem wvti_numbered_files : forall calls fs m fs' m',
+  0 <= vm_iter m -> vm_overwrite m = false -> wvti_fs_run fs m calls = Ok (fs', m') ->
+  (forall k name bytes, (k < length calls)%nat ->
+     vm_response (vm_at m (Z.of_nat k)) (nth k calls []) = Ok (Some (name, bytes)) -> fs_read fs' name = Some bytes) /\
+  (forall other,
+     (forall k name bytes, (k < length calls)%nat ->
+        vm_response (vm_at m (Z.of_nat k)) (nth k calls []) = Ok (Some (name, bytes)) -> other <> name) ->
+     fs_read fs' other = fs_read fs other).
+Proof.
+  induction calls as [|c rest IH]; intros fs m fs' m' Hpos Hov Hrun; cbn [wvti_fs_run] in Hrun.
+  - injection Hrun as <- <-. split; [intros k name bytes Hk; cbn in Hk; lia|reflexivity].
+  - destruct (wvti_step fs m c) as [[fs1 m1]|e] eqn:Hs; [|discriminate].
+    destruct (wvti_step_file _ _ _ _ _ Hs) as (-> & Hfile).
+    destruct (IH fs1 (vm_next m) fs' m') as (IH1 & IH2); [cbn; lia|exact Hov|exact Hrun|].
+    split.
+    + intros [|k] name bytes Hk Hresp; cbn [nth] in Hresp.
+      * change (Z.of_nat 0) with 0 in Hresp. rewrite vm_at_0 in Hresp. rewrite Hresp in Hfile. destruct Hfile as (Hf & _).
+        rewrite IH2; [exact Hf|]. intros j name' bytes' Hj Hresp' E. subst name'.
+        apply vm_response_name in Hresp. apply vm_response_name in Hresp'.
+        rewrite vm_at_next in Hresp'. cbn [vm_at vm_saveto vm_overwrite vm_iter] in Hresp'.
+        rewrite Hov in *. rewrite Hresp in Hresp'. apply wvti_filenames_distinct in Hresp'; lia.
+      * apply (IH1 k); [cbn in Hk; lia|]. rewrite vm_at_next. rewrite Nat2Z.inj_succ in Hresp.
+        replace (1 + Z.of_nat k) with (Z.succ (Z.of_nat k)) by lia. exact Hresp.
+    + intros other Hother. rewrite IH2.
+      * pose proof (Hother 0%nat) as H0. cbn [nth] in H0. change (Z.of_nat 0) with 0 in H0. rewrite vm_at_0 in H0.
+        destruct (vm_response m c) as [[[name bytes]|]|e]; try (now subst fs1).
+        destruct Hfile as (_ & Ho). apply Ho. apply (H0 name bytes); [cbn; lia|reflexivity].
+      * intros k name bytes Hk Hresp. apply (Hother (S k) name bytes); [cbn; lia|].
+        cbn [nth]. rewrite Nat2Z.inj_succ. replace (Z.succ (Z.of_nat k)) with (1 + Z.of_nat k) by lia.
+        now rewrite <- vm_at_next.
+Qed.
+
+(* both modes, ANY file system before: after a history, the file written by the LAST call holds exactly the bytes
+   of the model's file of that call *)
+Theorem wvti_last_file calls c fs m fs' m' name bytes :
+  wvti_fs_run fs m (calls ++ [c]) = Ok (fs', m') ->
+  vm_response (vm_at m (Z.of_nat (length calls))) c = Ok (Some (name, bytes)) ->
+  fs_read fs' name = Some bytes.
+Proof.
+  rewrite wvti_fs_run_app. destruct (wvti_fs_run fs m calls) as [[fs1 m1]|e] eqn:Hr; [|discriminate].
+  apply wvti_fs_run_module in Hr. subst m1. cbn [wvti_fs_run].
+  destruct (wvti_step fs1 _ c) as [[fs2 m2]|e] eqn:Hs; [|discriminate]. intros E Hresp. injection E as <- <-.
+  destruct (wvti_step_file _ _ _ _ _ Hs) as (_ & Hfile). rewrite Hresp in Hfile. apply Hfile.
+Qed.
+
+(* overwrite mode: only the file called saveto (with the ".vti" rule) is ever touched *)
+Theorem wvti_overwrite_others : forall calls fs m fs' m',
+  vm_overwrite m = true -> wvti_fs_run fs m calls = Ok (fs', m') ->
+  forall other, other <> vti_filename (vm_saveto m) -> fs_read fs' other = fs_read fs other.
+Proof.
+  induction calls as [|c rest IH]; intros fs m fs' m' Hov Hrun other Hne; cbn [wvti_fs_run] in Hrun.
+  - now injection Hrun as <- <-.
+  - destruct (wvti_step fs m c) as [[fs1 m1]|e] eqn:Hs; [|discriminate].
+    destruct (wvti_step_file _ _ _ _ _ Hs) as (-> & Hfile).
+    rewrite (IH fs1 (vm_next m) fs' m' Hov Hrun other Hne).
+    destruct (vm_response m c) as [[[name bytes]|]|e] eqn:Hresp; try (now subst fs1).
+    destruct Hfile as (_ & Ho). apply Ho. apply vm_response_name in Hresp.
+    rewrite Hov, iter_filename_overwrite in Hresp. congruence.
+Qed.
+
+(* in a history of events, consecutive calls of one module instance are a run of wvti_fs_run *)
+Fixpoint wvti_world_run (w : vworld) (events : list vevent) : res vworld :=
+  match events with
+  | [] => Ok w
+  | e :: rest => match wvti_event w e with Err x => Err x | Ok w' => wvti_world_run w' rest end
+  end.
+
+Lemma set_nth_get {A} : forall (l : list A) k x y, nth_error l k = Some y -> nth_error (set_nth l k x) k = Some x.
+Proof. induction l as [|a l IH]; intros [|k] x y H; cbn in *; try discriminate; [reflexivity|]. eapply IH; eauto. Qed.
+Lemma set_nth_twice {A} : forall (l : list A) k x y, set_nth (set_nth l k x) k y = set_nth l k y.
+Proof. induction l as [|a l IH]; intros [|k] x y; cbn; try reflexivity. now rewrite IH. Qed.
+Lemma set_nth_same {A} : forall (l : list A) k x, nth_error l k = Some x -> set_nth l k x = l.
+Proof.
+  induction l as [|a l IH]; intros [|k] x H; cbn in *; try discriminate.
+  - now inversion H.
+  - now rewrite IH.
+Qed.
+
+Theorem vworld_calls_are_run id : forall calls fs mods m fs' m',
+  nth_error mods id = Some m -> wvti_fs_run fs m calls = Ok (fs', m') ->
+  wvti_world_run (fs, mods) (map (VCall id) calls) = Ok (fs', set_nth mods id m').
+Proof.
+  induction calls as [|c rest IH]; intros fs mods m fs' m' Hm Hrun; cbn [wvti_fs_run map wvti_world_run] in *.
+  - injection Hrun as <- <-. now rewrite set_nth_same.
+  - destruct (wvti_step fs m c) as [[fs1 m1]|e] eqn:Hs; [|discriminate].
+    unfold wvti_event. rewrite Hm, Hs.
+    rewrite (IH fs1 (set_nth mods id m1) m1 fs' m' (set_nth_get _ _ _ _ Hm) Hrun).
+    now rewrite set_nth_twice.
+Qed.
